@@ -24,7 +24,9 @@ FILES = ["conftest.py", "test_a.py", "test_.py", "b_test.py", "_test.py", "test_
          "test_e.pyi", "helpers.py", "TEST_f.py", "test_g.PY", "xconftest.py", "conftest.py.bak", "__init__.py", "fx_mod.py"]
 PATTERNS = ["pkg/*", "*/deep/*", "*_test.py", "tests/unit/*", "**/test_a.py", "sub*", "*.txt", "unit", "[invalid", "test_?.py", "pkg/conftest.py"]
 LOCATIONS = [None, ("prefix", "x/build/y"), ("prefix", "home/env"), ("prefix", "w/node_modules/p"), ("prefix", "opt/site-packages/q"),
-             ("rootname", "build"), ("rootname", "venv"), ("prefix", "plain/dir"), ("rootname", "my.egg-info")]
+             ("rootname", "build"), ("rootname", "venv"), ("prefix", "plain/dir"), ("rootname", "my.egg-info"),
+             # the root is reached through a symlink (not in canonical form), plain and under an ignored name
+             ("linkprefix", "lnk/dir"), ("linkprefix", "build/lnk")]
 FX = "import pytest\n\n@pytest.fixture\ndef fx_{0}():\n    return 1\n\n@pytest.fixture\ndef lonely_{0}():\n    return 2\n\ndef test_{0}(fx_{0}):\n    pass\n"
 
 
@@ -178,7 +180,7 @@ def run(tier, seed):
         if rng.random() < 0.3:
             # a pattern that names a directory ABOVE the root of one location: patterns are matched against the
             # root-relative path, so it excludes nothing there either
-            above = [c for l in locs[1:] for c in l[1].split("/") if l[0] == "prefix"]
+            above = [c for l in locs[1:] for c in l[1].split("/") if l[0] in ("prefix", "linkprefix")]
             if above:
                 patterns.append(rng.choice(["**/%s/**", "**/%s/*", "*/%s/**"]) % rng.choice(above))
         names = []
